@@ -40,11 +40,20 @@ func c03RecB() any {
 	return rec{"b-other", "b-name"}
 }
 
+// a struct bound by pointer whose embedded pointer is nil: reading a promoted field must not fill it in
+type C03Meta struct{ Author string }
+
+type c03Page struct {
+	*C03Meta
+	Title string
+}
+
 // c03Engine is the engine of a history: two partials are registered before it is used.
 func c03Engine() *liquid.Engine {
 	e := newEngine(nil)
 	for name, src := range map[string]string{"c03-p1.html": "[A {{ n }}{% assign inc_a = 1 %}]", "c03-p2.html": "[B {{ s }}{% for q in a %}{% cycle 'x', 'y' %}{% endfor %}]",
 		// a partial in a sub-directory, and one that includes further
+		"c03-p5.html": "[E {{ 10 | divided_by: n }}]", // fails in the environments where n is 0
 		"c03sub/p3.html": "[C {{ n }}]", "c03sub/p4.html": "[D {% include \"c03-p1.html\" %}]"} {
 		if _, err := e.ParseTemplateAndCache([]byte(src), name, 1); err != nil {
 			panic(err)
@@ -61,6 +70,7 @@ func c03Extras(env map[string]any, j int) map[string]any {
 	// keys that are equal as Liquid values but of different Go types
 	env["mx"] = map[any]any{int64(1): "one", float64(1): "uno", int8(1): "eins", "1": "str", 2: "two", uint8(2): "zwei"}
 	env["p1"], env["p2"] = c03RecA(), c03RecB()
+	env["pe"] = &c03Page{Title: "page"}
 	env["dm"] = map[string]any{"d": hx.Drop{V: "dropped"}, "dd": hx.Drop{V: hx.Drop{V: []any{1, 2}}}, "plain": 1}
 	return env
 }
@@ -267,6 +277,7 @@ func TestC03(t *testing.T) {
 		// the name of an included partial, the order of a map's Liquid-equal keys
 		perEnv := []string{"<{% include partial %}>", "{% for pn in pnames %}{% include pn %};{% endfor %}{{ inc_a }}", "{% for kv in mx %}{{ kv[1] }} {% endfor %}|{{ mx | join: ',' }}",
 			"{% include partial %}{% for pn in pnames reversed %}{% include pn %}{% endfor %}",
+			"<{% include \"c03-p5.html\" %}>", "{{ pe.Title }}/{{ pe.Author }}/{% if pe.C03Meta %}M{% else %}no meta{% endif %}",
 			"{% for i in (1..2) %}{% include \"c03sub/p3.html\" %}{% endfor %}|{% include \"c03sub/p4.html\" %}",
 			// filters that might keep tables between calls: the same filter with other arguments in between
 			"{{ f | round: 2 }}|{{ 183.357 | round: 2 }}|{{ 183.357 | round: 1 }}", "{{ n | times: 100 | plus: 50 | round: -2 }}|{{ 1250 | round: -2 }}", "{{ 183.357 | round: -1 }}|{{ 0.5 | round: -1 }}|{{ f | round: -3 }}",
